@@ -84,6 +84,23 @@ def one_case(ctx, rng, wd, K=None, mode=None):
     retype = bool(frames > 1 and rng.random() < 0.35)
     snaps, inf, cell = gc.static_system(rng, d=d, K=K, cellkind="ortho", frames=frames, nmin=max(2, K), nmax=60, retype=retype, big="xl" if ctx.thorough else True)
     L = np.diag(cell["H"]).copy()
+    almost_cubic = False
+    if (inf["N"] + frames + K) % 9 == 0:
+        # an almost cubic cell (NPT output, edges differing by 1e-5 .. 1e-4 relative): wave vectors that would be equivalent in a cubic
+        # cell have DIFFERENT |q| here (by more than the documented 1e-6), so they are separate rows
+        almost_cubic = True
+        delta = np.array([0.0, 1.0, -0.7][:d]) * 10.0 ** rng.uniform(-5.5, -4.0)
+        Lnew = L[0] * (1.0 + delta)
+        SingleSnapshot, Snapshots = gc.records()
+        new = []
+        for s_ in snaps.snapshots:
+            fr_ = (s_.positions - s_.boxbounds[:, 0]) / L
+            lo_ = s_.boxbounds[:, 0].copy()
+            new.append(SingleSnapshot(timestep=s_.timestep, nparticle=s_.nparticle, particle_type=s_.particle_type, positions=lo_ + fr_ * Lnew,
+                                      boxlength=Lnew.copy(), boxbounds=np.column_stack([lo_, lo_ + Lnew]), realbounds=None, hmatrix=np.diag(Lnew)))
+        snaps = Snapshots(nsnapshots=len(new), snapshots=new)
+        L = Lnew.copy()
+        ctx.count("almost_cubic_cells")
     types = snaps.snapshots[0].particle_type
     Kreal = len(np.unique(types))
     N = inf["N"]
@@ -132,6 +149,13 @@ def one_case(ctx, rng, wd, K=None, mode=None):
                     "kwargs": {k: v for k, v in kwargs.items()}, "types": [s.particle_type for s in snaps.snapshots], "retyped_between_frames": retype,
                     "positions": [s.positions for s in snaps.snapshots] if N <= 30 else "omitted(N>30)"}
     key = f"sq/K{min(Kreal, 6)}"
+    if mode == "default" and rng.random() < 0.4:
+        # history: the same trajectory (same box, same range) analysed with ANOTHER direction option immediately before
+        other = [o for o in ([False, True, "x", "y"] + (["z"] if d == 3 else [])) if o != onlypos]
+        oth = other[int(rng.integers(0, len(other)))]
+        if expected_default_set(d, numofq, oth):
+            ctx.call(key + "/prior_call", lambda: sq(snaps, qrange=qrange, onlypositive=oth).getresults(), data=info)
+            ctx.count("prior_call_other_option")
     ok, res = ctx.call(key, lambda: sq(snaps, saveqvectors=save, outputfile=outfile, **kwargs).getresults(), data=info)
     ctx.case(f"K{Kreal}/{d}D/{mode}/{onlypos}", snaps.snapshots[0].positions, types, L, np.array(nvec),
              nontrivial=N >= 3 and len(nvec) >= 3,
@@ -166,13 +190,20 @@ def one_case(ctx, rng, wd, K=None, mode=None):
         except FileNotFoundError:
             ctx.violation(key + "/qvector_file", "saveqvectors=True wrote no _qvectors.csv", info())
     # --- grouping by |q|
-    uq = np.unique(np.round(qn, 6))
-    srt = np.sort(qn)
+    # rows = sets of wave vectors of EQUAL |q| (equal up to float round-off, 1e-9); the code distinguishes |q| at the documented 1e-6, so
+    # the row structure is unambiguous when every gap between distinct values exceeds 2.5e-6 (a rounding boundary cannot merge them);
+    # anything between round-off and that is a tie (R1) and the case is not compared
+    order_q = np.argsort(qn)
+    srt = qn[order_q]
     gaps = np.diff(srt)
-    if np.any((gaps > 1e-7) & (gaps < 1e-4)):
+    if np.any((gaps > 1e-9 * max(1.0, srt[-1])) & (gaps < 2.5e-6)):
         ctx.skip("columns")
         return
-    groups = [np.nonzero(np.abs(qn - v) < 5e-5)[0] for v in uq]
+    cuts = np.nonzero(gaps >= 2.5e-6)[0] + 1
+    groups = [order_q[g] for g in np.split(np.arange(len(qn)), cuts)]
+    uq = np.array([qn[g].mean() for g in groups])
+    if almost_cubic:
+        ctx.count("almost_cubic_compared")
     exp_cols = ["q"] + list(ref.keys())
     if not ctx.check("layout", list(res.columns) == exp_cols and len(res) == len(uq), key + "/layout",
                      lambda: f"columns {list(res.columns)} rows {len(res)}; expected {exp_cols} rows {len(uq)}", info):
